@@ -378,6 +378,7 @@ func runSched(col *Collector, focus, tier string, seed int64) {
 				m := 2 + rng.Intn(3)
 				c.nested[s] = mk(m, randDag(m), randKinds(m))
 				c.nested[s].shared = c.nested[s].shared && !c.viaConfig
+				c.nested[s].plainNames = rng.Intn(2) == 0
 				c.cond[s] = 'n'
 			}
 		}
